@@ -134,22 +134,51 @@ pub fn stub_five_any(h: &Five) -> (u16, Five) {
     (v, *h)
 }
 
-/// H3b' — compositional: Six's own selection / comparison / sort logic never panics for ARBITRARY words, whatever
-/// (total) five-card primitive it calls; with c05_five_total (the real primitive never panics on any card-or-blank five)
-/// this gives panic freedom of six-slot ranking on card-or-blank hands
+/// native family for the compositional harnesses: the real six/seven-card ranking on structured card-or-blank
+/// hands (one or two blanks in every position among strong cards, repeated cards); any panic is a violation
+#[cfg(not(kani))]
+fn blank_family<const N: usize>(rank: impl Fn([u32; N])) {
+    let strong = [word(12, 3), word(11, 3), word(10, 3), word(9, 3), word(8, 3), word(7, 3), word(0, 0)];
+    for b1 in 0..N {
+        for b2 in 0..N {
+            let mut w = [0u32; N];
+            for i in 0..N {
+                w[i] = strong[i];
+            }
+            w[b1] = 0;
+            w[b2] = 0;
+            rank(w);
+            let mut d = [0u32; N];
+            for i in 0..N {
+                d[i] = strong[i];
+            }
+            d[b1] = d[b2]; // a repeated card
+            rank(d);
+        }
+    }
+}
+
+/// H3b' — compositional: Six's own selection / comparison / sort logic never panics on card-or-blank slots, whatever
+/// (total) five-card primitive it calls — in particular one that returns 0 for some candidates and a rank for others;
+/// with c05_five_total (the real primitive never panics on any card-or-blank five) this gives panic freedom of
+/// six-slot ranking on card-or-blank hands
 #[cfg_attr(kani, kani::proof)]
 #[cfg_attr(kani, kani::unwind(9))]
 #[cfg_attr(kani, kani::stub(<ckc_rs::cards::five::Five as ckc_rs::cards::HandRanker>::hand_rank_value_and_hand, stub_five_any))]
 pub fn c05_six_logic_total() {
-    #[cfg(kani)]
-    let a: [u32; 6] = sym::words::<6>();
-    #[cfg(not(kani))]
-    let a: [u32; 6] = { let s = six_or_seven_slots(); [s[0], s[1], s[2], s[3], s[4], s[5]] };
+    let s = six_or_seven_slots();
+    let a: [u32; 6] = [s[0], s[1], s[2], s[3], s[4], s[5]];
     let h = Six::from(a);
     let (_v, hand) = h.hand_rank_value_and_hand();
     let b = hand.to_arr();
     check!(b[0] >= b[1] && b[1] >= b[2] && b[2] >= b[3] && b[3] >= b[4], "six: returns normally, reported hand in non-increasing order");
-    cover!(a[0] == 0 && a[5] == u32::MAX || !cfg!(kani), "six: blank and an arbitrary word");
+    #[cfg(not(kani))]
+    blank_family::<6>(|w| {
+        let _ = Six::from(w).hand_rank_value_and_hand();
+        let _ = Six::from(w).hand_rank_value_validated();
+    });
+    cover!(a[0] == 0 && a[5] != 0, "six: a blank first");
+    cover!(a[0] != 0 && a[0] == a[5], "six: a repeated card");
 }
 
 /// H3c' — the same for Seven
@@ -157,13 +186,16 @@ pub fn c05_six_logic_total() {
 #[cfg_attr(kani, kani::unwind(23))]
 #[cfg_attr(kani, kani::stub(<ckc_rs::cards::five::Five as ckc_rs::cards::HandRanker>::hand_rank_value_and_hand, stub_five_any))]
 pub fn c05_seven_logic_total() {
-    #[cfg(kani)]
-    let a: [u32; 7] = sym::words::<7>();
-    #[cfg(not(kani))]
     let a: [u32; 7] = six_or_seven_slots();
     let h = Seven::from(a);
     let (_v, hand) = h.hand_rank_value_and_hand();
     let b = hand.to_arr();
     check!(b[0] >= b[1] && b[1] >= b[2] && b[2] >= b[3] && b[3] >= b[4], "seven: returns normally, reported hand in non-increasing order");
-    cover!(a[0] == 0 && a[6] == u32::MAX || !cfg!(kani), "seven: blank and an arbitrary word");
+    #[cfg(not(kani))]
+    blank_family::<7>(|w| {
+        let _ = Seven::from(w).hand_rank_value_and_hand();
+        let _ = Seven::from(w).hand_rank_value_validated();
+    });
+    cover!(a[0] == 0 && a[6] != 0, "seven: a blank first");
+    cover!(a[0] != 0 && a[0] == a[6], "seven: a repeated card");
 }
